@@ -520,9 +520,10 @@ func callSSA(i *interpreter, caller *frame, callpos token.Pos, fn *ssa.Function,
 		caller: caller, // for panic/recover
 		fn:     fn,
 	}
+	fi := i.eng.funcInfoOf(fn)
 	if fn.Parent() == nil {
-		name := fn.String()
-		if ext := externals[name]; ext != nil {
+		name := fi.name
+		if ext := fi.ext; ext != nil {
 			if i.mode&EnableTracing != 0 {
 				fmt.Fprintln(os.Stderr, "\t(external)")
 			}
@@ -535,7 +536,7 @@ func callSSA(i *interpreter, caller *frame, callpos token.Pos, fn *ssa.Function,
 			}
 			panic(abortPath{"inconclusive", "unmodelled external " + name})
 		}
-		if deny := deniedPkgs[pkgPathOf(fn)]; deny && !allowedFns[name] {
+		if fi.denied {
 			if fn.Name() == "init" && fn.Signature.Recv() == nil {
 				return nil
 			}
@@ -606,13 +607,14 @@ func callSSA(i *interpreter, caller *frame, callpos token.Pos, fn *ssa.Function,
 }
 
 func callSSAbody(i *interpreter, fr *frame, fn *ssa.Function, args []value, env []value) value {
+	fi := i.eng.funcInfoOf(fn)
 
 	// generic function body?
 	if fn.TypeParams().Len() > 0 && len(fn.TypeArgs()) == 0 {
 		panic(engineFault("interp requires ssa.BuilderMode to include InstantiateGenerics to execute generics"))
 	}
 
-	fr.fi = i.eng.funcInfoOf(fn)
+	fr.fi = fi
 	fr.env = make([]value, fr.fi.n)
 	fr.block = fn.Blocks[0]
 	fr.locals = make([]value, len(fn.Locals))
